@@ -47,7 +47,7 @@ def floors(tier):
     f = {"groups": 300, "schedules": 5000, "schedules_exhaustive_groups": 100, "thread_runs": 100,
          "thread_validations": 5000, "thread_runs_20plus_switches": 50, "observed_switches": 2000,
          "distinct_interleaving_signatures": 50}
-    for k in ("refs", "remote", "regex", "format", "types", "same-schema-object", "verdicts"):
+    for k in ("refs", "remote", "regex", "format", "types", "same-schema-object", "verdicts", "dollar-schema"):
         f["collision:" + k] = 60
     return f
 
@@ -92,6 +92,18 @@ def make_member(rng, d, k, kinds):
         fc.checks("shared-format")(lambda inst, accept=accept: inst == accept)
         props["f1"] = {"format": "shared-format"}
         props["f2"] = {"items": {"format": "shared-format"}}
+    dollar = None
+    if "dollar-schema" in kinds:
+        # member 0 is created the way jsonschema.validate() does it: through validator_for, with a $schema URI
+        # nobody registered; the other members fetch a document from that very URL through their own handlers
+        U_ = R.HANDLER_DIR + "dialect.json"
+        if k == 0:
+            dollar = U_
+        else:
+            hdoc2 = {"properties": {"v": rng.choice(LEAVES)}, "minProperties": 5}
+            handlers = dict(handlers, vf=(lambda url, hdoc2=hdoc2: hdoc2))
+            props["ds1"] = {"$ref": U_}
+            props["ds2"] = {"$ref": U_ + "#/properties/v"}
     if "verdicts" in kinds:
         # content-equal subschemas in every member, instances that are equal in Python but different JSON values
         props["v1"] = {"type": "boolean"}
@@ -121,8 +133,16 @@ def make_member(rng, d, k, kinds):
     if rng.random() < 0.5:
         inst["extra"] = 0
 
+    if dollar:
+        S["$schema"] = dollar
+
     def build():
         kw = {}
+        if dollar:
+            import warnings
+            with warnings.catch_warnings():
+                warnings.simplefilter("ignore")
+                validators.validator_for(S)       # what jsonschema.validate(instance, S) does first
         if fc is not None:
             kw["format_checker"] = fc
         if store is not None or handlers:
@@ -133,7 +153,7 @@ def make_member(rng, d, k, kinds):
 
 def group_plan(gseed):
     rng = random.Random(gseed)
-    kinds = set(rng.sample(["refs", "remote", "regex", "format", "types", "verdicts"], rng.randrange(1, 4)))
+    kinds = set(rng.sample(["refs", "remote", "regex", "format", "types", "verdicts", "dollar-schema"], rng.randrange(1, 4)))
     n = rng.choice([2, 2, 3])
     if rng.random() < 0.3:
         # several validators built from the very same schema OBJECT (no resolver passed): each still gets its own resolver
